@@ -1,5 +1,6 @@
 import Ptn.C01.Model
 import Ptn.C01.Lemmas
+import Ptn.C01.Enum
 /-! Property theorems for C01 (Hamiltonian → state diagram → operator is exact).  Only property theorems
 and non-vacuity examples live here; helper lemmas are in `Lemmas.lean`.
 
@@ -24,6 +25,14 @@ theorem pad_spec (ops : List (Nat × String)) (i dim : Nat) :
 /-- The padded assignment of a term names every node of the tree exactly once, in preorder. -/
 theorem asg_covers (ops : List (Nat × String)) (t : RTree) :
     (asgOf ops t).map Prod.fst = t.ids := asgOf_ids ops t
+
+/-- The denotation is the sum over **all** choices of one hyperedge per node that agree on every
+    vertex, of (product of the λ's) · (product of the γ's) · (chosen labels): the node-by-node
+    definition `denoteAt` and the explicit enumeration produce the same list of summands, for every
+    diagram (well-formed or not). -/
+theorem denote_eq_sum_over_choices (d : SD) : sdDenote d = sdDenoteEnum d := by
+  unfold sdDenote sdDenoteEnum
+  exact (enum_eq_denoteAt d none).symm
 
 /-- A single-term diagram denotes exactly that term: for every tree, every label assignment and every
     coefficient pair there is exactly one consistent choice of hyperedges, its label assignment is the
@@ -76,10 +85,7 @@ theorem base_defined (t : RTree) (tm : Term) (rest : List Term) :
 
 /-! ### Non-vacuity: concrete instances -/
 
-/-- A branched tree with a dimension-1 node, child order as given. -/
-def exTree : RTree := .node 0 2 [.node 2 3 [], .node 1 2 [.node 3 1 []]]
-def exT1 : Term := ⟨2 / 3, "g", [(0, "A"), (3, "B")]⟩
-def exT2 : Term := ⟨-5, "1", [(2, "C")]⟩
+-- `exTree`, `exT1`, `exT2` (a branched tree with a dimension-1 node and two terms) are defined in `Lemmas.lean`.
 
 example : sdDenote (singleTerm exTree exT1) =
     [⟨2 / 3, ["g"], [(0, "A"), (2, "I3"), (1, "I2"), (3, "B")]⟩] := by decide +kernel
@@ -97,6 +103,10 @@ example : coeffOf (hamDenote exTree [exT1, exT2, exT1])
 example : (singleTerm exTree exT1).WF ∧ (singleTerm exTree exT2).WF ∧
     SameShape (singleTerm exTree exT1) (singleTerm exTree exT2) :=
   ⟨singleAt_WF _ _ _ true _, singleAt_WF _ _ _ true _, singleAt_sameShape _ _ _ _ _ _ true _⟩
+
+-- the explicit enumeration really enumerates: 2 · 2 · 2 · 2 global choices for two terms on four nodes, two consistent
+example : ((baseDiagram exTree [exT1, exT2]).map fun d => ((choices d).length, (sdDenoteEnum d).length)) =
+    some (16, 2) := by decide +kernel
 
 -- `denoteAt` is not vacuously empty on malformed input only: an inconsistent pair of hyperedges
 -- (vertex 1 toward the child, but the child's only hyperedge sits on vertex 0) denotes nothing
